@@ -196,6 +196,31 @@ func registerIntrinsics(e *Engine) {
 		e.setResult(st, c, e.strIndex(StrV{B: bs}, StrV{B: []*Term{a[1].(*Term)}}))
 		return nil
 	}
+	// ---- math/bits population count (the 32-bit version indexes a table; use SWAR terms instead)
+	pop := func(w int) Intrinsic {
+		return func(e *Engine, st *State, c ssa.CallInstruction, a []Value) []*State {
+			tt := e.TT
+			x := tt.Zext(a[0].(*Term), 64)
+			k := func(v uint64) *Term { return tt.Const(64, v) }
+			sh := func(t *Term, n uint64) *Term { return tt.Bin(OpLshr, t, k(n)) }
+			and := func(a, b *Term) *Term { return tt.Bin(OpBAnd, a, b) }
+			add := func(a, b *Term) *Term { return tt.Bin(OpAdd, a, b) }
+			const m0, m1, m2 = 0x5555555555555555, 0x3333333333333333, 0x0f0f0f0f0f0f0f0f
+			x = add(and(sh(x, 1), k(m0)), and(x, k(m0)))
+			x = add(and(sh(x, 2), k(m1)), and(x, k(m1)))
+			x = and(add(sh(x, 4), x), k(m2))
+			x = add(x, sh(x, 8))
+			x = add(x, sh(x, 16))
+			x = add(x, sh(x, 32))
+			e.setResult(st, c, and(x, k(127)))
+			return nil
+		}
+	}
+	I["math/bits.OnesCount64"] = pop(64)
+	I["math/bits.OnesCount32"] = pop(32)
+	I["math/bits.OnesCount16"] = pop(16)
+	I["math/bits.OnesCount8"] = pop(8)
+	I["math/bits.OnesCount"] = pop(64)
 	// ---- sync: sequential no-ops
 	for _, n := range []string{"(*sync.Mutex).Lock", "(*sync.Mutex).Unlock", "(*sync.RWMutex).Lock", "(*sync.RWMutex).Unlock",
 		"(*sync.RWMutex).RLock", "(*sync.RWMutex).RUnlock"} {
